@@ -10,6 +10,7 @@ Abstract state of a node: its data as Seq<char>.  `accepts_K(s)` is the (assumed
 validity checker of node kind K on an inserted fragment."""
 from vf.unit import Fn, Rule
 from units import info_helpers as H
+from units.c18_xmlchar import ranges_spec, SPEC
 
 KINDS = [
     # key, info type, info field, insert-param, dom type, checker
@@ -97,6 +98,13 @@ pub mod info {
         s.chars().count()
     }
 
+    #[verifier::external_body]
+    pub fn shim_as_str(s: &String) -> (r: &str)
+        ensures r@ == s@,
+    {
+        s.as_str()
+    }
+
     // s.chars().skip(a).take(n).collect(): saturating at the end of the string, never panics
     #[verifier::external_body]
     pub fn shim_skip_take(s: &String, a: usize, n: usize) -> (r: String)
@@ -118,10 +126,28 @@ pub mod info {
     pub assume_specification [String::len] (s: &String) -> (r: usize)
         ensures r == utf8_len(s@);
 
-    // ---- A3: the nom-based validity checkers passed to insert_char_at (xml_parser::content/comment/cdsect) ----
-    pub uninterp spec fn accepts_text(s: Seq<char>) -> bool;
-    pub uninterp spec fn accepts_comment(s: Seq<char>) -> bool;
-    pub uninterp spec fn accepts_cdata(s: Seq<char>) -> bool;
+    // ---- lexical validity of stored character data (XML 1.0 productions [14] CharData, [15] Comment, [20] CData) ----
+@P2CHAR@
+    pub open spec fn all_chars(s: Seq<char>) -> bool { forall|i: int| 0 <= i < s.len() ==> p2_char(#[trigger] s[i] as u32) }
+    pub open spec fn has_cdata_end(s: Seq<char>) -> bool {
+        exists|i: int| 0 <= i && i + 2 < s.len() && #[trigger] s[i] == ']' && s[i + 1] == ']' && s[i + 2] == '>'
+    }
+    pub open spec fn has_double_hyphen(s: Seq<char>) -> bool {
+        exists|i: int| 0 <= i && i + 1 < s.len() && #[trigger] s[i] == '-' && s[i + 1] == '-'
+    }
+    pub open spec fn valid_text(s: Seq<char>) -> bool {
+        all_chars(s) && (forall|i: int| 0 <= i < s.len() ==> #[trigger] s[i] != '<' && s[i] != '&') && !has_cdata_end(s)
+    }
+    pub open spec fn valid_comment(s: Seq<char>) -> bool {
+        all_chars(s) && !has_double_hyphen(s) && (s.len() > 0 ==> s.last() != '-')
+    }
+    pub open spec fn valid_cdata(s: Seq<char>) -> bool { all_chars(s) && !has_cdata_end(s) }
+
+    // ---- A3: the nom-based validity checkers passed to insert_char_at (xml_parser::content/comment/cdsect) are
+    //      assumed to DECIDE the lexical validity of their argument; the parser itself is not verified ----
+    pub open spec fn accepts_text(s: Seq<char>) -> bool { valid_text(s) }
+    pub open spec fn accepts_comment(s: Seq<char>) -> bool { valid_comment(s) }
+    pub open spec fn accepts_cdata(s: Seq<char>) -> bool { valid_cdata(s) }
 
     #[verifier::external_body]
     pub fn check_text(value: &str) -> (r: error::Result<bool>)
@@ -142,6 +168,11 @@ pub mod info {
         ensures r is Ok ==> r->Ok_0 == accepts_cdata(value@), r is Err ==> !accepts_cdata(value@),
     {
         unimplemented!()
+    }
+
+    // what a checker passed as a closure / fn item answered about a character sequence
+    pub open spec fn check_says<F: Fn(&str) -> error::Result<bool>>(check: F, s: Seq<char>, verdict: error::Result<bool>) -> bool {
+        exists|p: &str| p@ == s && #[trigger] check.ensures((p,), verdict)
     }
 
     // ---- extracted from /repo/info/src/lib.rs: helpers ----
@@ -247,17 +278,18 @@ def build():
         FI, None, 'delete_char_range', props=['C16'], safety_props=['C16'],
         sig_rules=[Rule('R12', r'^fn ', 'pub fn ', 'visibility inside the environment module')],
         ensures=[('C16:deletes_clipped_range', 'r@ == deleted(value@, offset as int, count as int)')])
+    SP = 'spliced(value@, offset as int, new@)'
     fns['insert_char_at'] = Fn(
         FI, None, 'insert_char_at', props=['C16'], safety_props=['C16'],
         sig_rules=[Rule('R12', r'^fn ', 'pub fn ', 'visibility inside the environment module')],
         requires=[('check_total', 'forall|s: &str| check.requires((s,))')],
-        ensures=[('C16:ok_is_spliced', 'r is Ok ==> r->Ok_0@ == spliced(value@, offset as int, new@)'),
+        ensures=[('C16:ok_is_spliced', f'r is Ok ==> r->Ok_0@ == {SP}'),
                  ('C16:length_fits_usize', 'r is Ok ==> r->Ok_0@.len() <= usize::MAX'),
-                 ('C16:ok_iff_check_true', 'r is Ok ==> check.ensures((new,), Ok::<bool, error::Error>(true))'),
-                 ('C16+C13:refusal_is_invalid_data',
-                  'r is Err ==> (r->Err_0 is InvalidData && check.ensures((new,), Ok::<bool, error::Error>(false)))'
-                  ' || check.ensures((new,), Err::<bool, error::Error>(r->Err_0))')],
-        rules=[H.R_TOSTR])
+                 ('C16+C15:ok_only_if_checker_accepts_the_joined_string', f'r is Ok ==> check_says(check, {SP}, Ok::<bool, error::Error>(true))'),
+                 ('C16+C13:refusal_is_invalid_data_or_checker_error',
+                  f'r is Err ==> (r->Err_0 is InvalidData && check_says(check, {SP}, Ok::<bool, error::Error>(false)))'
+                  f' || check_says(check, {SP}, Err::<bool, error::Error>(r->Err_0))')],
+        rules=[H.R_TOSTR, Rule('R37', r'joined\.as_str\(\)', 'shim_as_str(&joined)', 'String::as_str -> shim returning a &str with the same characters')])
     fns['from_dom_exception'] = Fn('dom/src/error.rs', 'impl From<DomException> for Error', 'from', props=['C16'], no_twin=True,
                                    label='dom::error::From<DomException>::from')
     fns['from_info_error'] = Fn('dom/src/error.rs', 'impl From<xml_info::error::Error> for Error', 'from', props=['C16'], no_twin=True,
@@ -279,13 +311,15 @@ def build():
             ensures=[('C16:clipped_subsequence', f'r@ == clipped({S}, range.start as int, range.end as int)')])
         fns[f'info_{k}_delete'] = Fn(
             FI, own, 'delete', props=['C16'], label=f'{L}::delete', sig_rules=[PUB],
-            ensures=[('C16:deletes_clipped_range', f'{N} == deleted({O}, offset as int, count as int)')])
+            ensures=[('C16:deletes_clipped_range', f'{N} == deleted({O}, offset as int, count as int)'),
+                     ('C15:stored_data_stays_valid', f'{accepts}({O}) ==> {accepts}({N})')])
         fns[f'info_{k}_insert'] = Fn(
             FI, own, 'insert', props=['C16'], label=f'{L}::insert', rules=strip_check(checker), sig_rules=[PUB],
-            ensures=[('C16:accepted_fragment_is_spliced', f'{accepts}({par}@) ==> r is Ok && {N} == spliced({O}, offset as int, {par}@)'),
-                     ('C16+C13:refused_fragment_changes_nothing', f'!{accepts}({par}@) ==> r is Err && {N} == {O}'),
+            ensures=[('C16:valid_result_is_stored', f'{accepts}(spliced({O}, offset as int, {par}@)) ==> r is Ok && {N} == spliced({O}, offset as int, {par}@)'),
+                     ('C16+C13:invalid_result_is_refused_and_changes_nothing', f'!{accepts}(spliced({O}, offset as int, {par}@)) ==> r is Err && {N} == {O}'),
                      ('C16:length_fits_usize', f'r is Ok ==> {N}.len() <= usize::MAX'),
-                     ('C13:error_changes_nothing', f'r is Err ==> {N} == {O}')])
+                     ('C13:error_changes_nothing', f'r is Err ==> {N} == {O}'),
+                     ('C15:stored_data_stays_valid', f'r is Ok ==> {accepts}({N})')])
         # DOM layer
         D = f'self.data.{fld}@'
         DO = f'old(self).data.{fld}@'
@@ -304,10 +338,11 @@ def build():
             FD, f'impl CharacterDataMut for {dty}', 'insert_data', props=['C16'], label=f'{LD}::insert_data',
             rules=[R_BORROW, R_ERRQ, R_CALLQ], sig_rules=[R_MUTSELF],
             ensures=[('C16+C13:offset_past_end_is_index_size_err', f'offset > {DO}.len() ==> r is Err && error::index_size(r->Err_0) && {DN} == {DO}'),
-                     ('C16:inserts_at_offset', f'offset <= {DO}.len() && info::{accepts}(arg@) ==> r is Ok && {DN} == {DO}.subrange(0, offset as int) + arg@ + {DO}.subrange(offset as int, {DO}.len() as int)'),
+                     ('C16:inserts_at_offset', f'offset <= {DO}.len() && info::{accepts}({DO}.subrange(0, offset as int) + arg@ + {DO}.subrange(offset as int, {DO}.len() as int)) ==> r is Ok && {DN} == {DO}.subrange(0, offset as int) + arg@ + {DO}.subrange(offset as int, {DO}.len() as int)'),
                      ('C16:length_fits_usize', f'r is Ok ==> {DN}.len() <= usize::MAX'),
                      ('C13:error_changes_nothing', f'r is Err ==> {DN} == {DO}'),
-                     ('C13:refused_fragment_is_error', f'!info::{accepts}(arg@) ==> r is Err')])
+                     ('C13:invalid_result_is_error', f'offset <= {DO}.len() && !info::{accepts}({DO}.subrange(0, offset as int) + arg@ + {DO}.subrange(offset as int, {DO}.len() as int)) ==> r is Err'),
+                     ('C15:stored_data_stays_valid', f'r is Ok ==> info::{accepts}({DN})')])
         fns[f'dom_{k}_delete_data'] = Fn(
             FD, f'impl CharacterDataMut for {dty}', 'delete_data', props=['C16'], label=f'{LD}::delete_data',
             rules=[R_BORROW, R_ERRQ], sig_rules=[R_MUTSELF],
@@ -317,18 +352,19 @@ def build():
         TR = 'pub trait CharacterDataMut: CharacterData + NodeMut'
         fns[f'dom_{k}_append_data'] = Fn(
             FD, TR, 'append_data', props=['C16'], label=f'{LD}::append_data (trait default)', sig_rules=[R_MUTSELF],
-            ensures=[('C16:appends', f'info::{accepts}(arg@) ==> r is Ok && {DN} == {DO} + arg@'),
+            ensures=[('C16:appends', f'info::{accepts}({DO}.subrange(0, {DO}.len() as int) + arg@ + {DO}.subrange({DO}.len() as int, {DO}.len() as int)) ==> r is Ok && {DN} == {DO} + arg@'),
+                     ('C15:stored_data_stays_valid', f'r is Ok ==> info::{accepts}({DN})'),
                      ('C13:error_changes_nothing', f'r is Err ==> {DN} == {DO}')])
         fns[f'dom_{k}_replace_data'] = Fn(
             FD, TR, 'replace_data', props=['C16'], label=f'{LD}::replace_data (trait default)', sig_rules=[R_MUTSELF], rules=[R_REPLQ],
             ensures=[('C16+C13:offset_past_end_is_index_size_err', f'offset > {DO}.len() ==> r is Err && error::index_size(r->Err_0) && {DN} == {DO}'),
-                     ('C16:replaces_clipped_range', f'offset <= {DO}.len() && info::{accepts}(arg@) ==> r is Ok && {DN} == {DO}.subrange(0, offset as int) + arg@ + {DO}.subrange(min_int(offset as int + count as int, {DO}.len() as int), {DO}.len() as int)'),
+                     ('C16:replaces_clipped_range', f'offset <= {DO}.len() && info::{accepts}({DO}.subrange(0, offset as int) + arg@ + {DO}.subrange(offset as int, {DO}.len() as int)) ==> r is Ok && {DN} == {DO}.subrange(0, offset as int) + arg@ + {DO}.subrange(min_int(offset as int + count as int, {DO}.len() as int), {DO}.len() as int)'),
                      ('C13:error_changes_nothing', f'r is Err ==> {DN} == {DO}')])
         fns[f'dom_{k}_set_data'] = Fn(
             FD, TR, 'set_data', props=['C16'], label=f'{LD}::set_data (trait default)', sig_rules=[R_MUTSELF],
-            ensures=[('C16:replaces_everything', f'info::{accepts}(data@) ==> r is Ok && {DN} == data@'),
+            ensures=[('C16:replaces_everything', f'info::{accepts}({DO}.subrange(0, 0) + data@ + {DO}.subrange(0, {DO}.len() as int)) ==> r is Ok && {DN} == data@'),
                      ('C13:error_changes_nothing', f'r is Err ==> {DN} == {DO}')])
-    template = ('use vstd::prelude::*;\nverus! {\n' + INFO_ENV.replace('@INFO_IMPLS@', '\n'.join(info_impls))
+    template = ('use vstd::prelude::*;\nverus! {\n' + INFO_ENV.replace('@P2CHAR@', '    ' + ranges_spec('p2_char', SPEC['p2_char']).replace('\n', '\n    ')).replace('@INFO_IMPLS@', '\n'.join(info_impls))
                 + DOM_ENV.replace('@DOM_IMPLS@', '\n'.join(dom_impls)) + '\n} // verus!\nfn main() {}\n')
     return template, fns
 
